@@ -122,6 +122,19 @@ contract(F + "Continuum.avg_num_annotations_per_annotator", params={"self": CONT
          raises={"ZeroDivisionError": {"iff": "Nkeys(self) == 0"}},
          ensures=[cl("result == NumUnits(self) / Nkeys(self)", name="mean")], serves={"C13", "C01", "C02", "C03", "C05"})
 
+contract(F + "Continuum.reset_bounds",
+         params={"self": CONT()}, modifies=["self.bound_inf", "self.bound_sup"], macros=VIEW_MACROS + [
+             Macro("anyu", [], "exists([(a, Real), (u, Unit)], Us(self)[a][u])")],
+         requires=["RI(self)"],
+         ensures=[cl("implies(not anyu(), self.bound_inf == 0 and self.bound_sup == 0)", "C13", name="no-unit"),
+                  cl("implies(anyu(), exists([(a, Real), (u, Unit)], Us(self)[a][u] and self.bound_inf == u.s) and "
+                     "forall([(a, Real), (u, Unit)], implies(Us(self)[a][u], self.bound_inf <= u.s)))", "C13", name="lo-is-min-start"),
+                  cl("forall([(a, Real), (u, Unit)], implies(Us(self)[a][u], u.e <= self.bound_sup))", "C13", name="hi-bounds-every-end"),
+                  cl("implies(anyu(), exists([(a, Real), (u, Unit)], Us(self)[a][u] and self.bound_sup == u.e))", "C13",
+                     name="hi-is-attained"),
+                  cl("RI(self)", name="RI")],
+         serves={"C13"})
+
 # =========================================================================================================
 # Continuum.get_best_alignment / get_best_soft_alignment        (C01, C02, C03-D4, C08, C11, C14)
 #
